@@ -14,7 +14,9 @@ CONSTANTS A,          \* retraction length
           Depth,
           UseFw,      \* firmware retraction in the alphabet
           UseEonly,   \* E-only retraction in the alphabet
-          UseAt, UseG92E, UseInch, EMax
+          UseAt, UseG92E, UseInch, EMax,
+          UseM83      \* M82 / M83 in the alphabet (E words are then targets or distances,
+                      \* whichever the file's extruder mode asks for) and G92 E to a non-zero value
 
 Region == MkRect("r1", 1, 0, 2, 1)
 
@@ -28,17 +30,20 @@ U == IF cs.gh.unit = "mm" THEN UM ELSE UI
 \* logical values whose native reading is the given native value (none if not representable)
 L(native) == {v \in -(2 * EMax)..(2 * EMax) : v * U = native}
 
+\* the E word (native reading) that advances the file's extruder by d
+T(d) == IF cs.gh.eabs THEN cs.gh.e + d ELSE d
+
 MoveCmds ==
     UNION {
       {Cmd("G1", [l \in {"X"} |-> x], "", "") : x \in L(p)} \cup
       {Cmd("G1", [l \in {"X", "E"} |-> IF l = "X" THEN w[1] ELSE w[2]], "", "")
-           : w \in L(p) \X L(cs.gh.e + U)}
+           : w \in L(p) \X L(T(U))}
       : p \in 0..3 }
 
 ECmds ==
     IF UseEonly
-    THEN {Cmd("G1", [l \in {"E"} |-> e], "", "") : e \in L(cs.gh.e - A * U)} \cup
-         {Cmd("G1", [l \in {"E"} |-> e], "", "") : e \in L(cs.gh.e + A * U)}
+    THEN {Cmd("G1", [l \in {"E"} |-> e], "", "") : e \in L(T(0 - A * U))} \cup
+         {Cmd("G1", [l \in {"E"} |-> e], "", "") : e \in L(T(A * U))}
     ELSE {}
 
 FwCmds ==
@@ -48,7 +53,9 @@ FwCmds ==
 
 OtherCmds ==
     (IF UseG92E THEN {Cmd("G92", [l \in {"E"} |-> 0], "", "")} ELSE {}) \cup
-    (IF UseInch THEN {Plain("G20"), Plain("G21")} ELSE {})
+    (IF UseInch THEN {Plain("G20"), Plain("G21")} ELSE {}) \cup
+    (IF UseM83 THEN {Plain("M82"), Plain("M83"), Cmd("G92", [l \in {"E"} |-> A], "", "")}
+     ELSE {})
 
 AtInputs == IF UseAt THEN { <<"disable">>, <<"enable">> } ELSE {}
 
